@@ -229,8 +229,13 @@ class Task:
             content_length_header = str(self.content_length)
             self.response_headers.append(("Content-Length", content_length_header))
 
+        # the parser may have decided that the connection must not be reused
+        # (Content-Length together with Transfer-Encoding, Transfer-Encoding on
+        # a request that is not HTTP/1.1)
+        must_close = getattr(self.request, "connection_close", False)
+
         if version == "1.0":
-            if connection == "keep-alive":
+            if connection == "keep-alive" and not must_close:
                 if not content_length_header:
                     self.set_close_on_finish()
                 else:
@@ -239,7 +244,7 @@ class Task:
                 self.set_close_on_finish()
 
         elif version == "1.1":
-            if connection == "close":
+            if connection == "close" or must_close:
                 self.set_close_on_finish()
 
             if not content_length_header:
